@@ -104,19 +104,33 @@ func traverseAll(pj *simdjson.ParsedJson) (what string) {
 	if _, err := walkFlat(pj); err != nil && (errors.Is(err, errBudget) || strings.Contains(err.Error(), "PANIC")) {
 		return "flat walk: " + err.Error()
 	}
-	if _, err := walkInterface(pj); err != nil && strings.Contains(err.Error(), "PANIC") {
-		return err.Error()
+	// Array.Interface pre-allocates capacity proportional to the tape extent of every
+	// nesting level, i.e. quadratic memory in the nesting depth (4 GB at depth 22528); that
+	// is a resource question outside "terminates without panic", so Interface() is only
+	// exercised up to depth 3000.
+	if tapeDepth(pj) <= 3000 {
+		if _, err := walkInterface(pj); err != nil && strings.Contains(err.Error(), "PANIC") {
+			return err.Error()
+		}
 	}
 	it := pj.Iter()
 	it.MarshalJSON()
 	it = pj.Iter()
 	it.FindElement(nil, "a", "b")
 	it = pj.Iter()
+	containers := 0
 	for i := 0; i < 4*len(pj.Tape)+8; i++ {
 		if it.PeekNextTag() == simdjson.TagEnd {
 			break
 		}
 		t := it.AdvanceInto()
+		if t == simdjson.TagObjectStart || t == simdjson.TagArrayStart {
+			// per-container calls cost O(size): on huge tapes only the first 48 containers
+			containers++
+			if containers > 48 && len(pj.Tape) > 4096 {
+				continue
+			}
+		}
 		if t == simdjson.TagObjectStart {
 			if obj, err := it.Object(nil); err == nil {
 				obj.FindKey("a", nil)
@@ -448,4 +462,22 @@ func init() {
 		body:   c19Body,
 		replay: c19Replay,
 	})
+}
+
+func tapeDepth(pj *simdjson.ParsedJson) int {
+	d, max := 0, 0
+	for i := 0; i < len(pj.Tape); i++ {
+		switch byte(pj.Tape[i] >> 56) {
+		case '{', '[':
+			d++
+			if d > max {
+				max = d
+			}
+		case '}', ']':
+			d--
+		case '"', 'l', 'u', 'd':
+			i++
+		}
+	}
+	return max
 }
